@@ -1,6 +1,7 @@
 import PptxModel.Model.Proto
 import PptxModel.Model.PropStore
 import PptxModel.Model.Color
+import PptxModel.Model.Fill
 namespace Pptx.Drv.C09
 open Pptx Pptx.Proto Pptx.PropStore Pptx.SimpleTypes
 
@@ -68,6 +69,87 @@ def colorRun (s : St) : List Op → List String
     | none => s!"ref|{encClr s}|{readers s}" :: colorRun s rest
     | some s' => s!"ok|{encClr s'}|{readers s'}" :: colorRun s' rest
 
+/-! `c09.fill`: a fill as `N` (none) `0` (noFill) `B` (blip) `G` (grpFill) `S/<colour>` `R/<lin>/<path>/<pos>@<colour>+...`
+    `P/<prst>/<fg>/<bg>` (`n` = absent attribute / `a:lin`, `~` = absent `a:fgClr` / `a:bgClr`, `!` = no stops); calls `bg so gr pa
+    pt<prst> f:<colour op> k:<colour op> an<n>/<d> sc<i>:<colour op> sp<i>:<n>/<d>`; per call: result, fill, readers -/
+open Pptx.Fill in
+def decStop (t : String) : Option Stop :=
+  match t.splitOn "@" with
+  | [p, c] => do let p ← p.toInt?; let c ← decClr c; pure ⟨p, c⟩
+  | _ => none
+
+def decOptClr (t : String) : Option (Option Pptx.Color.St) := if t == "~" then some none else (decClr t).map some
+
+open Pptx.Fill in
+def decFill (t : String) : Option F :=
+  match t.splitOn "/" with
+  | ["N"] => some .none | ["0"] => some .noFill | ["B"] => some .blip | ["G"] => some .grp
+  | ["S", c] => (decClr c).map .solid
+  | ["R", lin, path, stops] => do
+      let lin ← oi lin
+      let stops ← if stops == "!" then some [] else (stops.splitOn "+").mapM decStop
+      pure (.grad stops lin (path == "1"))
+  | ["P", prst, fg, bg] => do
+      let prst ← if prst == "n" then some none else prst.toNat?.map some
+      let fg ← decOptClr fg; let bg ← decOptClr bg
+      pure (.patt prst fg bg)
+  | _ => none
+
+open Pptx.Fill in
+def encFill : F → String
+  | .none => "N" | .noFill => "0" | .blip => "B" | .grp => "G"
+  | .solid c => s!"S/{encClr c}"
+  | .grad stops lin path => s!"R/{so lin}/{if path then 1 else 0}/" ++
+      (if stops.isEmpty then "!" else "+".intercalate (stops.map fun s => s!"{s.pos}@{encClr s.clr}"))
+  | .patt prst fg bg =>
+      let oc : Option Pptx.Color.St → String := fun | none => "~" | some c => encClr c
+      s!"P/{match prst with | none => "n" | some p => toString p}/{oc fg}/{oc bg}"
+
+open Pptx.Fill in
+def decFillOp (t : String) : Option Op :=
+  if t == "bg" then some .background else if t == "so" then some .solid else if t == "gr" then some .gradient
+  else if t == "pa" then some .patterned
+  else if t.startsWith "pt" then
+    let r := (t.drop 2).toString
+    if r == "n" then some (.pattern none) else r.toNat?.map fun p => .pattern (some p)
+  else if t.startsWith "f:" then (decOp (t.drop 2).toString).map .fore
+  else if t.startsWith "k:" then (decOp (t.drop 2).toString).map .back
+  else if t.startsWith "an" then
+    match (t.drop 2).toString.splitOn "/" with
+    | [n, d] => do let n ← n.toInt?; let d ← d.toNat?; pure (.angle n d)
+    | _ => none
+  else if t.startsWith "sc" then
+    match (t.drop 2).toString.splitOn ":" with
+    | [i, o] => do let i ← i.toNat?; let o ← decOp o; pure (.stopClr i o)
+    | _ => none
+  else if t.startsWith "sp" then
+    match (t.drop 2).toString.splitOn ":" with
+    | [i, r] => match r.splitOn "/" with
+      | [n, d] => do let i ← i.toNat?; let n ← n.toInt?; let d ← d.toNat?; pure (.stopPos i n d)
+      | _ => none
+    | _ => none
+  else none
+
+open Pptx.Fill in
+def fillReaders (f : F) : String :=
+  let k := match Pptx.Fill.kindOf f with
+    | .none => "N" | .noFill => "0" | .blip => "B" | .grp => "G" | .solid => "S" | .grad => "R" | .patt => "P"
+  let pat := match patternOf f with | none => "T" | some none => "n" | some (some p) => toString p
+  let ang := match angleOf f with | .typeError => "T" | .valueError => "V" | .inherited => "n" | .angle a => toString a
+  let st := match stopsOf f with | none => "T" | some l => toString l.length
+  s!"{k} {pat} {ang} {st}"
+
+open Pptx.Fill in
+def resStr : Res → String
+  | .ok => "ok" | .typeError => "T" | .valueError => "V" | .indexError => "I"
+
+open Pptx.Fill in
+def fillRun (a1 : Option Nat) (f : F) : List Op → List String
+  | [] => []
+  | op :: rest =>
+    let (f', r) := step a1 f op
+    s!"{resStr r}|{encFill f'}|{fillReaders f'}" :: fillRun a1 f' rest
+
 def handle : List String → Option String
   | ["c09.run", dflts, init, ops, reads] => do
       let dflts ← if dflts == "!" then some [] else (dflts.splitOn ";").mapM decPair
@@ -86,6 +168,11 @@ def handle : List String → Option String
       let n ← n.toInt?; let d ← d.toNat?
       let s := brightStore n d
       pure s!"{so s.1} {so s.2} {brightRead s}"
+  | ["c09.fill", a1, start, ops] => do
+      let a1 ← if a1 == "n" then some none else a1.toNat?.map some
+      let f ← decFill start
+      let ops ← if ops == "!" then some [] else (ops.splitOn ";").mapM decFillOp
+      pure (";".intercalate (s!"start|{encFill f}|{fillReaders f}" :: fillRun a1 f ops))
   | ["c09.color", start, ops] => do
       let s ← decClr start
       let ops ← if ops == "!" then some [] else (ops.splitOn ";").mapM decOp
